@@ -108,9 +108,13 @@ func (eng *RedisEmu) killSignalMonitor() {
 	eng.wg.Add(1)
 	go func() {
 		defer eng.wg.Done()
+		simTaskBegin("sigmon", 0)
+		defer simTaskEnd()
+		defer simRecover()
 
 		eng.l.Trace("kill signal monitor running")
 
+		defer simYield("sigmon.woke")
 		select {
 		case sig := <-sigs:
 			eng.l.Debugf("kill signal received: %s", sig.String())
@@ -131,8 +135,12 @@ func (eng *RedisEmu) exitKeyMonitor() {
 	eng.wg.Add(1)
 	go func() {
 		defer eng.wg.Done()
+		simTaskBegin("keymon", 0)
+		defer simTaskEnd()
+		defer simRecover()
 
 		eng.l.Trace("exit key monitor running")
+		defer simYield("keymon.woke")
 		select {
 		case <-eng.l.Done():
 			eng.l.Debug("exit key monitor canceled")
@@ -151,16 +159,21 @@ func (eng *RedisEmu) periodicSave() {
 		eng.wg.Add(1)
 		go func() {
 			defer eng.wg.Done()
+			simTaskBegin("saver", 0)
+			defer simTaskEnd()
+			defer simRecover()
 
 			timer := time.NewTicker(time.Second)
 			for {
 				select {
 				case <-eng.l.Done():
+					simYield("saver.woke")
 					eng.l.Debug("saver loop canceled")
 					timer.Stop()
 					eng.dss.save(eng.l)
 					return
 				case <-timer.C:
+					simYield("saver.woke")
 					eng.dss.save(eng.l)
 				}
 			}
@@ -218,10 +231,14 @@ func (eng *RedisEmu) startServer() {
 	eng.wg.Add(1)
 	go func() {
 		defer eng.wg.Done()
+		simTaskBegin("accept", 0)
+		defer simTaskEnd()
+		defer simRecover()
 
 		// accept connections and process commands
 		for {
 			connection, err := server.Accept()
+			simYield("accept.woke")
 			if err != nil {
 				if !errors.Is(err, net.ErrClosed) {
 					eng.l.Errorf("accept error: %s", err)
